@@ -90,6 +90,20 @@ package httpserver
 //	                                      asks for literally; no earlier request of the generation for this (host,method,path) was answered so
 //	C12.panic-in-cached-mux               the cached mux panicked while the cache-less one answered
 //
+// DYNAMIC MAPPER (added): without any HTTPServer reload, pipelines behind the
+// backend names are deleted, replaced by a NEW handler object under the same
+// name (as a Pipeline update does) or created - at quiescent points between
+// phases and by a mapper task while requests are in flight. The cached mux has
+// one MuxMapper object whose state moves through immutable versions; the
+// cache-less server is asked through copies of its (cache-less, stateless)
+// instances bound to a mapper frozen at a version, so "what does generation g
+// answer under mapper version v" can be asked at any time. "Chosen backend" is
+// (name, generation of the handler object that served the request). A request
+// that started at mapper version mlo and returned at mhi may be answered like
+// any version mlo..mhi (combined with any generation lo..hi).
+//
+//	C12.mapper.stale-handler              answer (of none of the allowed combinations) that the server gives under an OLDER mapper version
+//
 // REWRITTEN PATHS (added): requests go through mux.ServeHTTP -> serveHTTP, which
 // applies rewriteTarget to the request object after search(). Half of the
 // rewrite targets lead to a path that clients also request literally (/x ->
@@ -110,8 +124,8 @@ package httpserver
 // Leniency / not generated: xForwardedFor off; one of path / pathPrefix /
 // pathRegexp per entry; /.well-known/acme-challenge/ is not requested;
 // private / loopback client addresses are not used; reloads are never concurrent
-// with each other (easegress serialises them too); the MuxMapper and the set of
-// unknown backends stay the same across reloads; a request that overlaps
+// with each other (easegress serialises them too); the same MuxMapper object is
+// handed to every reload; a request that overlaps
 // several reloads may be answered by any generation in its window; only the
 // first generation's spec text is always validated by supervisor.NewSpec,
 // later ones in a tenth of the runs (validate_all) and otherwise only decoded
@@ -218,12 +232,31 @@ type c12Live struct {
 	Spec c12SpecD `json:"spec"`
 }
 
-// c12Phase: an optional reload at the quiescent point before the phase, then
-// clients (and live reloads) running until all of them are done.
+// c12MapOp changes what the MuxMapper answers for one backend name: the
+// pipeline is deleted (Del) or (re)created, i.e. a NEW handler object is
+// registered under the name, as a Pipeline update does.
+type c12MapOp struct {
+	Name string `json:"name"`
+	Del  bool   `json:"del,omitempty"`
+}
+
+// c12LiveMap is a change of the mapper done by the mapper task while the
+// clients of a phase run (no HTTPServer reload is involved).
+type c12LiveMap struct {
+	AtUs int64      `json:"at_us,omitempty"`
+	Skip int        `json:"skip,omitempty"`
+	Ops  []c12MapOp `json:"ops"`
+}
+
+// c12Phase: an optional reload and/or mapper change at the quiescent point
+// before the phase, then clients (and live reloads / live mapper changes)
+// running until all of them are done.
 type c12Phase struct {
-	Spec    *c12SpecD   `json:"spec,omitempty"`
-	Clients []c12Client `json:"clients"`
-	Live    []c12Live   `json:"live"`
+	Spec    *c12SpecD    `json:"spec,omitempty"`
+	PreMap  []c12MapOp   `json:"pre_map,omitempty"`
+	Clients []c12Client  `json:"clients"`
+	Live    []c12Live    `json:"live"`
+	LiveMap []c12LiveMap `json:"live_map,omitempty"`
 }
 
 // c12Scenario: the embedded spec is generation 0, Clients/Live the first phase.
@@ -232,6 +265,7 @@ type c12Scenario struct {
 	Missing     []string    `json:"missing"` // backends the MuxMapper does not know (503)
 	Clients     []c12Client `json:"clients"`
 	Live        []c12Live   `json:"live"`
+	LiveMap     []c12LiveMap `json:"live_map,omitempty"`
 	Next        []c12Phase  `json:"next"`
 	ValidateAll bool        `json:"validate_all,omitempty"` // every generation's text goes through supervisor.NewSpec
 }
@@ -682,26 +716,52 @@ func c12Gen(rng *sim.Rand, tier string) interface{} {
 	}
 
 	// reloads: none in a third of the runs; each one either at a quiescent
-	// point (it opens a new phase) or live, inside the current phase
+	// point (it opens a new phase) or live, inside the current phase. Mapper
+	// changes (pipelines deleted / replaced / created, no reload): the same.
 	nReload := rng.Pick(0, 0, 1, 1, 2, 3)
+	nMap := rng.Pick(0, 0, 0, 1, 1, 2, 3)
 	pLive := []float64{0, 0.5, 0.5, 1}[rng.Intn(4)]
 	cur := &sc.c12SpecD
-	phaseLive := []*[]c12Live{&sc.Live}
-	for i := 0; i < nReload; i++ {
-		d := c12NextSpec(rng, cur, backend, pIPF, pHdr)
-		if rng.Bool(pLive) {
-			l := phaseLive[len(phaseLive)-1]
-			*l = append(*l, c12Live{AtUs: int64(rng.Pick(0, 0, 0, 1, 50, 500, 1000, 3000)), Skip: rng.Pick(0, 0, 1, 2, 3, 5, 8), Spec: d})
-			cur = &(*l)[len(*l)-1].Spec
-		} else {
-			sc.Next = append(sc.Next, c12Phase{Spec: &d, Clients: []c12Client{}, Live: []c12Live{}})
-			ph := &sc.Next[len(sc.Next)-1]
-			// (appending to sc.Next may move the earlier phases: take the pointers again)
-			phaseLive = []*[]c12Live{&sc.Live}
-			for k := range sc.Next {
-				phaseLive = append(phaseLive, &sc.Next[k].Live)
+	type phaseRef struct {
+		live    *[]c12Live
+		liveMap *[]c12LiveMap
+	}
+	lastPhase := func() phaseRef {
+		if n := len(sc.Next); n > 0 {
+			return phaseRef{&sc.Next[n-1].Live, &sc.Next[n-1].LiveMap}
+		}
+		return phaseRef{&sc.Live, &sc.LiveMap}
+	}
+	genOps := func() []c12MapOp {
+		ops := []c12MapOp{}
+		for n := rng.Pick(1, 1, 2); n > 0 && nb > 0; n-- {
+			ops = append(ops, c12MapOp{Name: fmt.Sprintf("b%d", rng.Range(1, nb)), Del: rng.Bool(0.35)})
+		}
+		return ops
+	}
+	for nReload+nMap > 0 {
+		isReload := rng.Intn(nReload+nMap) < nReload
+		live := rng.Bool(pLive)
+		at, skip := int64(rng.Pick(0, 0, 0, 1, 50, 500, 1000, 3000)), rng.Pick(0, 0, 1, 2, 3, 5, 8)
+		if isReload {
+			nReload--
+			d := c12NextSpec(rng, cur, backend, pIPF, pHdr)
+			if live {
+				l := lastPhase().live
+				*l = append(*l, c12Live{AtUs: at, Skip: skip, Spec: d})
+				cur = &(*l)[len(*l)-1].Spec
+			} else {
+				sc.Next = append(sc.Next, c12Phase{Spec: &d, Clients: []c12Client{}, Live: []c12Live{}})
+				cur = &d
 			}
-			cur = ph.Spec
+			continue
+		}
+		nMap--
+		if live {
+			l := lastPhase().liveMap
+			*l = append(*l, c12LiveMap{AtUs: at, Skip: skip, Ops: genOps()})
+		} else {
+			sc.Next = append(sc.Next, c12Phase{PreMap: genOps(), Clients: []c12Client{}, Live: []c12Live{}})
 		}
 	}
 	nPhase := 1 + len(sc.Next)
@@ -863,21 +923,24 @@ func c12Shrink(sci interface{}) []interface{} {
 	for k := range sc.Next {
 		k := k
 		variant(func(c *c12Scenario) bool {
-			if c.Next[k].Spec != nil {
+			if c.Next[k].Spec != nil || len(c.Next[k].PreMap) > 0 {
 				return false
 			}
-			// phase without reload: its clients can run in the phase before
+			// phase without reload / mapper change: its clients can run in the phase before
 			if k == 0 {
 				c.Clients = append(c.Clients, c.Next[k].Clients...)
 				c.Live = append(c.Live, c.Next[k].Live...)
+				c.LiveMap = append(c.LiveMap, c.Next[k].LiveMap...)
 			} else {
 				c.Next[k-1].Clients = append(c.Next[k-1].Clients, c.Next[k].Clients...)
 				c.Next[k-1].Live = append(c.Next[k-1].Live, c.Next[k].Live...)
+				c.Next[k-1].LiveMap = append(c.Next[k-1].LiveMap, c.Next[k].LiveMap...)
 			}
 			c.Next = append(c.Next[:k:k], c.Next[k+1:]...)
 			return true
 		})
 		variant(func(c *c12Scenario) bool { ok := c.Next[k].Spec != nil; c.Next[k].Spec = nil; return ok })
+		variant(func(c *c12Scenario) bool { ok := len(c.Next[k].PreMap) > 0; c.Next[k].PreMap = nil; return ok })
 	}
 	for g := range c12Specs(sc) {
 		g := g
@@ -979,6 +1042,18 @@ func c12Shrink(sci interface{}) []interface{} {
 			lives = append(lives, &c.Next[k].Live)
 		}
 		for _, l := range lives {
+			for i := range *l {
+				if (*l)[i].AtUs != 0 || (*l)[i].Skip != 0 {
+					ok = true
+				}
+				(*l)[i].AtUs, (*l)[i].Skip = 0, 0
+			}
+		}
+		lms := []*[]c12LiveMap{&c.LiveMap}
+		for k := range c.Next {
+			lms = append(lms, &c.Next[k].LiveMap)
+		}
+		for _, l := range lms {
 			for i := range *l {
 				if (*l)[i].AtUs != 0 || (*l)[i].Skip != 0 {
 					ok = true
@@ -1318,11 +1393,15 @@ type c12Out struct {
 	Status  int
 	Backend string
 	Path    string
+	Gen     int // generation of the handler object that served the request (1: the first one registered under the name)
 }
 
 func (o c12Out) String() string {
 	if o.Status < 0 {
 		return "panic(no answer)"
+	}
+	if o.Backend != "" && o.Gen > 1 {
+		return fmt.Sprintf("%d/%s#%d%s", o.Status, o.Backend, o.Gen, o.Path)
 	}
 	if o.Backend != "" {
 		return fmt.Sprintf("%d/%s%s", o.Status, o.Backend, o.Path)
@@ -1361,28 +1440,50 @@ func c12ShortStack(st []byte) string {
 }
 
 func c12OutOf(rec *httptest.ResponseRecorder) c12Out {
-	return c12Out{Status: rec.Code, Backend: rec.Header().Get("X-C12-Backend"), Path: rec.Header().Get("X-C12-Path")}
+	o := c12Out{Status: rec.Code, Backend: rec.Header().Get("X-C12-Backend"), Path: rec.Header().Get("X-C12-Path")}
+	if g := rec.Header().Get("X-C12-Gen"); g != "" {
+		fmt.Sscan(g, &o.Gen)
+	}
+	return o
 }
 
+// c12MapState is one immutable version of what the MuxMapper knows: backend
+// name -> generation of the handler object registered under it (0: none).
+// Names without an entry have their first handler (generation 1).
+type c12MapState map[string]int
+
+func (st c12MapState) gen(name string) int {
+	if g, ok := st[name]; ok {
+		return g
+	}
+	return 1
+}
+
+// c12Mapper is a MuxMapper answering from a state; handler objects are
+// created once per (name, generation) and are the same object for as long as
+// the state does not change for that name, as with the real mapper.
 type c12Mapper struct {
-	missing  map[string]bool
+	state    c12MapState
 	handlers map[string]*c12Handler
 	onHandle func(id string, hold bool)
 }
 
 type c12Handler struct {
 	name string
-	m    *c12Mapper
+	gen  int
+	side *c12Mapper // whose onHandle is called
 }
 
 func (m *c12Mapper) GetHandler(name string) (context.Handler, bool) {
-	if m.missing[name] {
+	g := m.state.gen(name)
+	if g <= 0 {
 		return nil, false
 	}
-	h := m.handlers[name]
+	key := fmt.Sprintf("%s#%d", name, g)
+	h := m.handlers[key]
 	if h == nil {
-		h = &c12Handler{name: name, m: m}
-		m.handlers[name] = h
+		h = &c12Handler{name: name, gen: g, side: m}
+		m.handlers[key] = h
 	}
 	return h, true
 }
@@ -1392,14 +1493,15 @@ func (h *c12Handler) Handle(ctx *context.Context) string {
 	resp, _ := httpprot.NewResponse(nil)
 	resp.SetStatusCode(http.StatusOK)
 	resp.HTTPHeader().Set("X-C12-Backend", h.name)
+	resp.HTTPHeader().Set("X-C12-Gen", fmt.Sprint(h.gen))
 	id := ""
 	if req != nil {
 		resp.HTTPHeader().Set("X-C12-Path", req.Path())
 		id = req.HTTPHeader().Get("X-C12-Id")
 	}
 	ctx.SetResponse(context.DefaultNamespace, resp)
-	if h.m.onHandle != nil {
-		h.m.onHandle(id, true)
+	if h.side.onHandle != nil {
+		h.side.onHandle(id, true)
 	}
 	return ""
 }
@@ -1484,6 +1586,7 @@ type c12Hist struct {
 	id  string
 	q   *c12Req
 	gen int    // generation in force when the request started; exp and why are that generation's
+	mv  int    // version of the mapper when the request started
 	exp c12Out
 	why c12Why
 }
@@ -1491,6 +1594,7 @@ type c12Hist struct {
 type c12Flight struct {
 	q     *c12Req
 	gen   int
+	mv    int
 	exp   c12Out
 	why   c12Why
 	prior int // number of history entries whose search ran before this request's search
@@ -1506,12 +1610,13 @@ var c12CodePath = map[string]string{
 	"C12.reload":        "mux.go reload(): every muxInstance must start with a route cache of its own (lru.NewARC, filled only by its own search()); a cache object, *route, *MuxPath or ipfilter that is reachable from the instance published by m.inst.Store(inst) but was built for or filled under an earlier spec serves the earlier generation's answer",
 	"C12.key-from-rewritten-path": "mux.go putRouteToCache()/getRouteFromCache(): the key must be built from host, method and path as they were when search() looked the request up; serveHTTP() applies route.path.rewrite(req) to the SAME request object afterwards, so a key built later (or a request object kept and read later) names the rewritten path",
 	"C12.panic-in-cached-mux":     "mux.go serveHTTP()/search() on the cached mux",
+	"C12.mapper":        "mux.go serveHTTP(): handler, ok := mi.muxMapper.GetHandler(route.path.backend) must be asked on every request (503 when the backend is gone); nothing reachable from a cached *route / *MuxPath may remember the handler",
 	"C12.body-limit":    "mux.go serveHTTP(): maxBodySize := route.path.clientMaxBodySize, else mi.spec.ClientMaxBodySize - taken from the *MuxPath the (cached) route points to",
 	"C12.other":         "cache-hit/miss handling in mux.go search() / key construction (getRouteFromCache, putRouteToCache)",
 }
 
 func c12PathCodeKey(class string) string {
-	for _, k := range []string{"C12.header-shadow", "C12.cached-status-over-403", "C12.ipfilter-bypass", "C12.key-collision", "C12.key-from-rewritten-path", "C12.panic-in-cached-mux", "C12.reload", "C12.body-limit"} {
+	for _, k := range []string{"C12.header-shadow", "C12.cached-status-over-403", "C12.ipfilter-bypass", "C12.key-collision", "C12.key-from-rewritten-path", "C12.panic-in-cached-mux", "C12.reload", "C12.mapper", "C12.body-limit"} {
 		if strings.HasPrefix(class, k) {
 			return k
 		}
@@ -1679,12 +1784,29 @@ func c12Exec(r *sim.Run, sci interface{}) {
 		}
 		gens = append(gens, g)
 	}
-	missing := map[string]bool{}
+	// The mapper: snaps[v] is version v of what it knows (immutable). The cached
+	// mux has ONE mapper object whose state moves on; the cache-less server is
+	// asked through copies of its instances bound to a mapper frozen at a version.
+	snaps := []c12MapState{{}}
+	lastGen := map[string]int{} // highest handler generation ever registered under a name
 	for _, b := range sc.Missing {
-		missing[b] = true
+		snaps[0][b] = 0
+		lastGen[b] = 0
 	}
-	mapC := &c12Mapper{missing: missing, handlers: map[string]*c12Handler{}}
-	mapT := &c12Mapper{missing: missing, handlers: map[string]*c12Handler{}}
+	mver := 0
+	mapC := &c12Mapper{state: snaps[0], handlers: map[string]*c12Handler{}}
+	twinHandlers := map[string]*c12Handler{}
+	twinMaps := []*c12Mapper{{state: snaps[0], handlers: twinHandlers}}
+	mapT := twinMaps[0]
+	missingAt := func(v int) map[string]bool {
+		m := map[string]bool{}
+		for b, g := range snaps[v] {
+			if g == 0 {
+				m[b] = true
+			}
+		}
+		return m
+	}
 	mT := newMux(httpstat.New(), httpstat.NewTopN(10), mapT)
 	mC := newMux(httpstat.New(), httpstat.NewTopN(10), mapC)
 
@@ -1752,22 +1874,86 @@ func c12Exec(r *sim.Run, sci interface{}) {
 	reported := map[string]bool{}
 	potentialHit, variedHit, mismatches := 0, 0, 0
 
-	// ask: what does the cache-less server of generation g answer
-	ask := func(g int, q *c12Req, id string) c12Out {
+	// ask: what does the cache-less server of generation g answer while the
+	// mapper is at version v (a copy of the twin's cache-less, stateless
+	// instance bound to the frozen mapper of that version)
+	twinInst := map[[2]int]*muxInstance{}
+	ask := func(g, v int, q *c12Req, id string) c12Out {
+		inst := twinInst[[2]int{g, v}]
+		if inst == nil {
+			c := *refs[g]
+			c.muxMapper = twinMaps[v]
+			inst = &c
+			twinInst[[2]int{g, v}] = inst
+		}
 		rec := httptest.NewRecorder()
-		refs[g].serveHTTP(rec, c12HTTPReq(q, id))
+		inst.serveHTTP(rec, c12HTTPReq(q, id))
 		return c12OutOf(rec)
 	}
-	modelAgrees := func(why c12Why, exp c12Out) bool {
+	modelAgrees := func(why c12Why, exp c12Out, v int) bool {
 		switch {
-		case why.Status == 0 && missing[why.Backend]:
+		case why.Status == 0 && snaps[v].gen(why.Backend) == 0:
 			return exp.Status == 503 && exp.Backend == ""
 		case why.Status == 0 && why.TooLarge:
 			return exp.Status == 413 && exp.Backend == ""
 		case why.Status == 0:
-			return exp.Status == 200 && exp.Backend == why.Backend
+			return exp.Status == 200 && exp.Backend == why.Backend && exp.Gen == snaps[v].gen(why.Backend)
 		}
 		return exp.Status == why.Status && exp.Backend == ""
+	}
+	// changeMapper: pipelines are deleted / (re)created; atomic (no gate inside),
+	// no reload of the HTTPServer is involved
+	changeMapper := func(ops []c12MapOp, live bool) {
+		st := c12MapState{}
+		for k, g := range snaps[mver] {
+			st[k] = g
+		}
+		kind := "quiescent"
+		if live {
+			kind = "in_flight"
+		}
+		n := 0
+		var txt []string
+		for _, op := range ops {
+			if op.Name == "" {
+				continue
+			}
+			if _, ok := lastGen[op.Name]; !ok {
+				lastGen[op.Name] = 1
+			}
+			was := st.gen(op.Name)
+			switch {
+			case op.Del && was == 0:
+				continue
+			case op.Del:
+				st[op.Name] = 0
+				r.Probe("c12.mapper.backend_deleted")
+				txt = append(txt, "-"+op.Name)
+			default:
+				lastGen[op.Name]++
+				st[op.Name] = lastGen[op.Name]
+				if was == 0 {
+					r.Probe("c12.mapper.backend_created")
+				} else {
+					r.Probe("c12.mapper.backend_replaced_by_new_handler")
+				}
+				txt = append(txt, fmt.Sprintf("%s#%d", op.Name, st[op.Name]))
+			}
+			n++
+		}
+		if n == 0 {
+			return
+		}
+		r.Fault("mapper." + kind)
+		if live && inflight > 0 {
+			r.Probe("c12.mapper.changes_with_request_in_flight")
+		}
+		snaps = append(snaps, st)
+		twinMaps = append(twinMaps, &c12Mapper{state: st, handlers: twinHandlers})
+		mver = len(snaps) - 1
+		mapC.state = st
+		r.Eventf("mapper %s -> version %d: %s", kind, mver, strings.Join(txt, " "))
+		fmt.Fprintf(&sig, "|M%d%s:%s|", mver, kind[:1], strings.Join(txt, " "))
 	}
 
 	stamp := func(id string) *c12Flight {
@@ -1777,7 +1963,7 @@ func c12Exec(r *sim.Run, sci interface{}) {
 		}
 		f.done = true
 		f.prior = len(hist)
-		hist = append(hist, c12Hist{id: id, q: f.q, gen: f.gen, exp: f.exp, why: f.why})
+		hist = append(hist, c12Hist{id: id, q: f.q, gen: f.gen, mv: f.mv, exp: f.exp, why: f.why})
 		return f
 	}
 	mapC.onHandle = func(id string, _ bool) {
@@ -1815,14 +2001,15 @@ func c12Exec(r *sim.Run, sci interface{}) {
 			// the cache-less twin of the generation in force and the explanatory
 			// model (asking may pass gates in statement-gate runs: ask again if a
 			// reload of the cached mux returned meanwhile)
-			lo := done
-			exp := ask(lo, q, id)
-			for lo != done {
-				lo = done
-				exp = ask(lo, q, id)
+			lo, mlo := done, mver
+			exp := ask(lo, mlo, q, id)
+			for lo != done || mlo != mver {
+				lo, mlo = done, mver
+				exp = ask(lo, mlo, q, id)
 			}
+			missing := missingAt(mlo)
 			why := c12Model(gens[lo].d, q)
-			modelOK := modelAgrees(why, exp)
+			modelOK := modelAgrees(why, exp, mlo)
 			if !modelOK {
 				r.Probe("c12.model_disagrees_twin")
 			}
@@ -1832,7 +2019,7 @@ func c12Exec(r *sim.Run, sci interface{}) {
 			if hold < 0 || hold > 8 {
 				hold = 0
 			}
-			flights[id] = &c12Flight{q: q, gen: lo, exp: exp, why: why, hold: hold}
+			flights[id] = &c12Flight{q: q, gen: lo, mv: mlo, exp: exp, why: why, hold: hold}
 			inflight++
 			if inflight > maxInflight {
 				maxInflight = inflight
@@ -1850,6 +2037,7 @@ func c12Exec(r *sim.Run, sci interface{}) {
 				mC.ServeHTTP(recC, c12HTTPReq(q, id))
 			}()
 			hi := begun // reloads begun by the time the answer is complete
+			mhi := mver // mapper changes done by then
 			insideReload = insideReload && begun > done && hi == lo+1
 			f := stamp(id) // not routed to a handler: still the same atomic section as its search
 			inflight--
@@ -1883,18 +2071,53 @@ func c12Exec(r *sim.Run, sci interface{}) {
 				r.Probe("c12.req.repeats_triple_whose_answer_the_reload_changed")
 			}
 
-			// answers of the later generations the request may have seen
+			// answers of the later generations / mapper versions the request may have seen
 			exps := []c12Out{exp}
-			accepted, seenGen := got == exp, lo
-			differ := false
-			for g := lo + 1; g <= hi; g++ {
-				e := ask(g, q, id)
-				exps = append(exps, e)
-				if e != exp {
-					differ = true
+			accepted, seenGen, seenMv := got == exp, lo, mlo
+			differ, differMap := false, false
+			for g := lo; g <= hi; g++ {
+				for v := mlo; v <= mhi; v++ {
+					if g == lo && v == mlo {
+						continue
+					}
+					e := ask(g, v, q, id)
+					exps = append(exps, e)
+					if e != exp && v == mlo {
+						differ = true
+					}
+					if e != exp && g == lo {
+						differMap = true
+					}
+					if !accepted && e == got {
+						accepted, seenGen, seenMv = true, g, v
+					}
 				}
-				if !accepted && e == got {
-					accepted, seenGen = true, g
+			}
+			if mhi > mlo {
+				r.Probe("c12.req.overlaps_mapper_change")
+				if differMap {
+					r.Probe("c12.req.overlaps_mapper_change_versions_answer_differently")
+					if accepted && seenMv == mlo {
+						r.Probe("c12.req.overlap_served_by_old_handler")
+					} else if accepted {
+						r.Probe("c12.req.overlap_served_by_new_handler")
+					}
+				}
+			}
+			// repeats of a triple whose backend the mapper changed since: the
+			// shape in which a handler remembered by the cache would show
+			if lo == hi {
+				nBefore := 0
+				for i := range prior {
+					if h := &prior[i]; c12Same(h.q, q) && h.mv < mlo && h.exp != exp && (h.exp.Backend != "" || h.exp.Status == 503) && h.why.Backend == why.Backend {
+						nBefore++
+					}
+				}
+				if nBefore >= 1 {
+					r.Probe("c12.req.repeats_triple_whose_backend_the_mapper_changed")
+				}
+				if nBefore >= 2 {
+					r.Probe("c12.req.repeats_triple_whose_backend_the_mapper_changed_after_2_earlier_requests")
 				}
 			}
 			if hi > lo {
@@ -2002,8 +2225,8 @@ func c12Exec(r *sim.Run, sci interface{}) {
 				r.Probe("c12.cache_full")
 			}
 
-			if hi > lo {
-				r.Eventf("%s %v -> generations %d..%d nocache=%v cached=%v", id, q, lo, hi, exps, got)
+			if hi > lo || mhi > mlo {
+				r.Eventf("%s %v -> generations %d..%d mapper versions %d..%d nocache=%v cached=%v", id, q, lo, hi, mlo, mhi, exps, got)
 			} else {
 				r.Eventf("%s %v -> nocache=%v cached=%v", id, q, exp, got)
 			}
@@ -2015,8 +2238,19 @@ func c12Exec(r *sim.Run, sci interface{}) {
 			// an answer that an older generation gives (and none of lo..hi)
 			staleGen := -1
 			for g := lo - 1; g >= 0 && staleGen < 0; g-- {
-				if ask(g, q, id) == got {
-					staleGen = g
+				for v := mlo; v <= mhi; v++ {
+					if ask(g, v, q, id) == got {
+						staleGen = g
+					}
+				}
+			}
+			// an answer the server gave under an older version of the mapper (and none of mlo..mhi)
+			staleMap := -1
+			for v := mlo - 1; v >= 0 && staleMap < 0 && panicked == ""; v-- {
+				for g := lo; g <= hi; g++ {
+					if ask(g, v, q, id) == got {
+						staleMap = v
+					}
 				}
 			}
 			// Only a request of the SAME generation that shares the key (same
@@ -2046,6 +2280,9 @@ func c12Exec(r *sim.Run, sci interface{}) {
 			}
 			class, facts := "", ""
 			switch {
+			case staleMap >= 0:
+				class = "C12.mapper.stale-handler"
+				facts = fmt.Sprintf("the answer is what the server gives while the mapper is at version %d; the mapper has been at version %d since before the request started (versions: %v); no HTTPServer reload in between, so the cache survives a Pipeline update/delete and must not remember the handler", staleMap, mlo, snaps[staleMap:mhi+1])
 			case rewPrec != nil && !explainedInGen && (panicked != "" || got.Backend == rewPrec.exp.Backend || (got.Status == 503 && missing[rewPrec.exp.Backend])):
 				// served by the entry that REWROTE an earlier request to this path, and no earlier
 				// request of the generation with this very (host,method,path) was answered so
@@ -2088,6 +2325,12 @@ func c12Exec(r *sim.Run, sci interface{}) {
 			if hi > lo {
 				window = fmt.Sprintf("generations %d..%d (reload in flight)", lo, hi)
 			}
+			if mver > 0 {
+				window += fmt.Sprintf(", mapper version %d", mlo)
+				if mhi > mlo {
+					window += fmt.Sprintf("..%d (mapper change in flight)", mhi)
+				}
+			}
 			specs := ""
 			for g := 0; g <= hi && g < len(gens); g++ {
 				if g == staleGen || g >= lo {
@@ -2099,11 +2342,33 @@ func c12Exec(r *sim.Run, sci interface{}) {
 		}
 	}
 
-	phases := append([]c12Phase{{Clients: sc.Clients, Live: sc.Live}}, sc.Next...)
+	phases := append([]c12Phase{{Clients: sc.Clients, Live: sc.Live, LiveMap: sc.LiveMap}}, sc.Next...)
 	for pi := range phases {
 		ph := &phases[pi]
 		if pi > 0 && ph.Spec != nil {
 			reload(false) // quiescent: every task of the previous phase is done
+		}
+		if pi > 0 && len(ph.PreMap) > 0 {
+			changeMapper(ph.PreMap, false)
+		}
+		if len(ph.LiveMap) > 0 {
+			lms := ph.LiveMap
+			r.Go(fmt.Sprintf("p%d.mapper", pi), func() {
+				for _, l := range lms {
+					if r.Aborted() {
+						return
+					}
+					at := l.AtUs
+					if at < 0 || at > 1000000 {
+						at = 0
+					}
+					r.Sleep(time.Duration(at) * time.Microsecond)
+					for i := 0; i < l.Skip && i < 16 && !r.Aborted(); i++ {
+						r.Yield("c12.mapper")
+					}
+					changeMapper(l.Ops, true)
+				}
+			})
 		}
 		for ci := range ph.Clients {
 			ci := ci
@@ -2143,6 +2408,9 @@ func c12Exec(r *sim.Run, sci interface{}) {
 	if len(refs) > 1 {
 		r.Probe("c12.run_with_reload")
 	}
+	if mver > 0 {
+		r.Probe("c12.run_with_mapper_change")
+	}
 	if variedHit > 0 {
 		r.Nontrivial()
 	}
@@ -2161,6 +2429,7 @@ func TestVerifC12(t *testing.T) {
 		Rule: "scenario = drawn HTTPServer spec (1-3 rules, host/hostRegexp/any, exact/prefix/regexp/any paths, method lists, header-conditioned entries often followed by their header-less copy, " +
 			"IP filters at server/rule/path level, rewrites, unknown backends, clientMaxBodySize at server/path level) x cacheSize in {1,2,3,16} x 1-4 client tasks per phase sending 4-28 requests (some with bodies, some with the client IP in X-Forwarded-For / X-Real-Ip) over a small alphabet with repeats of earlier (host,method,path) under other headers/IPs " +
 			"and, in a fifth of the runs, host+method pairs whose concatenations coincide, and (in 3 of 4 runs) near-miss variants of earlier requests (host case/port/trailing dot, path slash/case/percent-escape/query, method case); " +
+			"in more than half of the runs 1-3 changes of the mux mapper without a reload (backend deleted / replaced by a new handler under the same name / created), quiescent or in flight; " +
 			"in two thirds of the runs 1-3 hot reloads of BOTH muxes with an edited / server-level-only / identical / fresh spec, each at a quiescent point between two phases or by a reloader task while requests are in flight; every request is also put to the cache-less instance of every generation it may have seen; " +
 			"non-trivial = at least one request repeated the (host,method,path) of an earlier one of the same generation with other headers or another client IP (the cache can matter); distinct = distinct (spec, ordered request/answer/reload history)",
 		Real: []string{"pkg/object/httpserver mux (newMux, reload, ServeHTTP, search, route cache on hashicorp ARC)", "pkg/util/ipfilter", "pkg/protocols/httpprot request/response (FetchPayload with body limits)", "pkg/context", "supervisor.NewSpec validation of the generated spec (generation 0 always, later generations in a tenth of the runs)"},
@@ -2170,7 +2439,8 @@ func TestVerifC12(t *testing.T) {
 			"both muxes are reloaded from one validated spec object per generation, the twin while its cacheSize field is 0 (reload reads the field only then); a probe checks that exactly the system under test owns a cache",
 			"oracle = the same routing code with cacheSize 0 and the same history of reloads (a routing bug that is independent of the cache is property C01's business and is not reported here)",
 			"a request started after lo reloads of the cached mux returned and finished when hi reloads had begun may be answered like any generation lo..hi of the cache-less server; with lo == hi it must be answered like that generation",
-			"reloads are serialised (never two at a time); the MuxMapper and the set of unknown backends do not change across reloads; cacheSize stays > 0",
+			"reloads are serialised (never two at a time); cacheSize stays > 0",
+			"the MuxMapper's content changes without reloads (backends deleted / replaced by a new handler object / created), at quiescent points and in flight; the cache-less server is asked through copies of its instances bound to a mapper frozen at a version; a request spanning mapper versions mlo..mhi may be answered like any of them; chosen backend = (name, handler generation)",
 			"without statement gates search() contains no gate, so cache operations of concurrent requests are serialised in the order the harness records (used by the classifier only); overlap exists around the handler call and around the gates of reload()",
 			"client IP is the transport address or, when the request carries X-Forwarded-For / X-Real-Ip, what those say (public addresses only); xForwardedFor off, one path condition per entry",
 			"the explanatory routing model is used only to name the violation class and is cross-checked against the twin on every request",
